@@ -115,6 +115,24 @@ let out_bool b = out_s (if b then " 1" else " 0")
 
 let out_moc (d, l) = out_n d; out_ranges l
 
+(* diagnostic flags for an invalid range-2D result (classification only; the verdict is r2d_okb) *)
+let r2d_flags w64 dt ds (x : stmoc) : string list =
+  let fl = ref [] in
+  let add f = if not (List.mem f !fl) then fl := !fl @ [f] in
+  let rec go lo prev = function
+    | [] -> ()
+    | (t, s) :: rest -> (
+        match t with
+        | [ (a, b) ] ->
+            if not (N.leb lo a) then add "T_OVERLAP_OR_UNSORTED";
+            if not (N.ltb a b) then add "T_EMPTY_RANGE";
+            if s = [] then add "S_EMPTY" else if not (valid_mocb Hpx w64 ds s) then add "S_NOT_VALID";
+            if N.eqb a lo && (match prev with Some p -> p = s | None -> false) then add "NOT_FUSED";
+            go b (Some s) rest
+        | _ -> add "T_NOT_SINGLE_RANGE"; go lo prev rest)
+  in
+  go N0 None x; ignore dt; !fl
+
 (* ---------- dispatch ---------- *)
 let handle (r : reader) : unit =
   match next r with
@@ -232,6 +250,34 @@ let handle (r : reader) : unit =
       let bytes = encode_rows (nat_of_int (w / 8)) l in
       out_s "OK ";
       List.iter (fun b -> Buffer.add_string buf (Printf.sprintf "%02x" (int_of_n b))) bytes
+  | "STOBS" ->
+      (* STOBS form dt ds out nobs (ta tb S)* : out judged against the observations' point set *)
+      let form = next r in
+      let dt = next_n r in
+      let ds = next_n r in
+      let out = next_stmoc r in
+      let obs = next_list r (fun r -> let ta = next_n r in let tb = next_n r in let s = next_ranges r in ((ta, tb), s)) in
+      let w64 = n_of_int 64 in
+      let ub = n_cells_max Hpx w64 in
+      let reference = obs_moc w64 dt obs in
+      let wf = wfb ub out && wfb ub reference in
+      let pts = wf && pts_eqb ub out reference in
+      let valid, flags =
+        if form = "M2" then begin
+          let flag name f = if List.exists f out then [name] else [] in
+          (valid2db w64 w64 dt ds out,
+           flag "T_EMPTY" (fun (t, _) -> t = [])
+           @ flag "S_EMPTY" (fun (_, s) -> s = [])
+           @ flag "T_NOT_VALID" (fun (t, _) -> t <> [] && not (valid_mocb Time w64 dt t))
+           @ flag "S_NOT_VALID" (fun (_, s) -> s <> [] && not (valid_mocb Hpx w64 ds s))
+           @ (if time_orderedb N0 out then [] else ["T_ORDER_OR_OVERLAP_BETWEEN_ELEMENTS"]))
+        end else begin
+          let v = r2d_okb w64 ds N0 None out in
+          (v, if v then [] else r2d_flags w64 dt ds out)
+        end in
+      let flags = flags @ (if wf then [] else ["S_NOT_WF"]) in
+      out_s "OK"; out_bool valid; out_bool pts;
+      out_s (" " ^ (if flags = [] then "-" else String.concat "," flags))
   | "ST2" ->
       (* ST2 op dt ds out A B : verdict of the verified checkers on the implementation output *)
       let o = next_op2 r in
